@@ -14,6 +14,7 @@ mod trace;
 #[path = "../../engine/src/wire/mod.rs"]
 mod wire;
 
+mod builders;
 mod cases;
 mod conv;
 mod dbops;
@@ -31,6 +32,7 @@ fn spaces(tier: &str) -> Vec<Box<dyn CaseSpace>> {
         Box::new(cases::Table::new("enum-conversions", conv::enum_cases())),
         Box::new(cases::Table::new("value-conversions", conv::value_cases(tier))),
         Box::new(cases::Table::new("callback-interfaces", handlers::cases(tier))),
+        Box::new(cases::Table::new("request-builders", builders::cases(tier))),
         Box::new(dbops::DbOps::new(tier)),
     ]
 }
@@ -114,6 +116,7 @@ fn main() {
              (1) enum-conversions: every variant of every generated ffi enumeration (variants discovered by scanning the generated From<c_int> over 0..=4096) through every hand-written From impl that takes it, and every native value (enumerated through the library's own from-octet constructors where they exist, otherwise listed) through every From impl that produces an ffi enumeration; oracle = like-named result (normalised Debug names) or the stated documented collapse; \
              (2) value-conversions: every struct From impl over boundary menus of every field (all 256 flag / IIN / control-code octets, three time qualities x boundary instants, numeric limits, NaN, infinities); oracle = field-wise equality with a natively constructed value; \
              (3) callback-interfaces: native values pushed through the real `impl ReadHandler / ControlHandler / OutstationApplication / ... for ffi::*` adapters into recording extern \"C\" callbacks (11 measurement types x value menus x 256 flags x time menus; every Variation x qualifier; every response header bit; every attribute variation x value type; every control code octet; every status returned); \
+             (5) request-builders: every sequence of <= 3 (4) calls of the exported dead-band request functions (6 kinds + finish_header), <= 2 (3) of the command set functions (10 kinds + finish_header) and every read / header request constructor (6 + the 16 class combinations) followed by <= 1 (2) of its 9 add functions: what the builder hands to the library (hook H7) equals what the same calls build natively; \
              (4) database-ops: every operation sequence up to the stated depth over add/remove/update/update2/update_flags/get on the 8 point types through the exported dnp3_database_* functions against the same sequence through the native Database traits on a second real outstation; oracle = identical return values and byte-identical class 0 / class 1-2-3 READ responses; \
              non-trivial = the conversion produced a value; distinct = distinct (conversion, input)",
             &[
